@@ -20,14 +20,16 @@ func init() {
 		ID: "C16",
 		Explanation: "Decided: (R1) every map update / delete on a version vector's map targets a map created in the same function or returned by a function proved fresh-returning (Clone, the constructors) — never the receiver's or a parameter's map — and slices handed in are copied before being sorted/truncated; (R2) the vector's writer and reader agree on the wire and validate against the same cap; " +
 			"(R3, informational) counters loaded from the maps flow only into comparisons, copies and the single +1 of Increment; (R4) that +1 is dominated by the strict test counter < K where K is the bound above which the reader rejects counters, so a successful Increment never produces a vector that cannot be read back. " +
-			"(R5) in Merge, an entry of the other operand that is absent from the result is stored on every path of its iteration (no skip), so the result is an upper bound of both; (R6) the key under which ReadVersionVector stores a counter is the decoded string itself, not a transformation of it — the operations and the writer treat node ids as opaque, so a normalising reader breaks Write∘Read = id and can collapse two entries. " +
-			"(R7) Compare enumerates the stored entries of each of its two operands (itself or through a helper it hands the operand to): an entry only one side holds can carry any counter, explicit zero included, so neither side's entries can be summarised by their number. " +
-			"NOT decided, stated plainly: reflexivity / antisymmetry / transitivity of Compare, commutativity / associativity / idempotence / leastness of Merge, strictness of Increment. These are arithmetic facts over all inputs; deciding them needs execution or a solver, both outside this technique. A mutation of Compare or Merge that keeps R1–R2 intact is NOT detected by this check.",
+			"(R5) Merge is the pointwise maximum by the shape of its loops: every return of the built result is dominated, for each operand, by a range loop over that operand's map in which every path through the body stores the ranged (node, counter) or passes the outcome counter <= result[node] (or the result starts as a copy made by a method of that operand); every store into the result writes an operand's ranged entry and is the first filling of the fresh map or dominated by the not-found outcome of the lookup / the outcome counter > current; a return that hands back one operand is dominated by len(other) == 0; (R2, addition) a length prefix narrower than 4 bytes in the vector's writer carries every id length the validator of the operations accepts; (R6) the key under which ReadVersionVector stores a counter is the decoded string itself, not a transformation of it — the operations and the writer treat node ids as opaque, so a normalising reader breaks Write∘Read = id and can collapse two entries. " +
+			"(R7) Compare enumerates the stored entries of each of its two operands (itself or through a helper it hands the operand to): an entry only one side holds can carry any counter, explicit zero included, so neither side's entries can be summarised by their number. (R8) Equal is Compare(receiver, argument) == the equal constant, or a direct implementation whose every `return true` is dominated by entry-by-entry checking loops over both operands (or one loop and len == len): never a one-sided containment test. (R9 = C12.R12) the strings the codec Reader hands out (the node ids ReadVersionVector stores as keys, R6) are copies, never views of the frame buffer: a decoded vector is an immutable value and does not change when the bytes it was decoded from are overwritten. " +
+			"NOT decided, stated plainly: reflexivity / antisymmetry / transitivity of Compare, commutativity / associativity / idempotence / leastness of Merge, strictness of Increment. These are arithmetic facts over all inputs; deciding them needs execution or a solver, both outside this technique. A mutation of the arithmetic of Compare that keeps its enumeration intact is NOT detected by this check.",
 		Rules: []Rule{
 			{ID: "C16.R1", Min: 6, Desc: "operands are never modified (ownership of the map)", Fn: c16Ownership},
 			{ID: "C16.R2", Min: 2, Desc: "serialisation symmetry and common cap", Fn: c16Wire},
 			{ID: "C16.R3", Min: 1, Desc: "data independence of counters (informational)", Fn: c16DataIndependence},
-			{ID: "C16.R5", Min: 1, Desc: "the join keeps every entry of both operands", Fn: c16MergeKeepsAll},
+			{ID: "C16.R5", Min: 3, Desc: "the join is the pointwise maximum: it keeps every entry of both operands at least at its counter, and no store lowers an entry", Fn: c16PointwiseMax},
+			{ID: "C16.R8", Min: 1, Desc: "Equal answers true only for vectors Compare calls equal", Fn: c16EqualExact},
+			{ID: "C16.R9", Min: 4, Desc: "the node ids of a decoded vector own their bytes (C12.R12)", Fn: c12DecodedOwnBytes},
 			{ID: "C16.R6", Min: 1, Desc: "the reader stores node ids verbatim", Fn: c16VerbatimKeys},
 			{ID: "C16.R4", Min: 1, Desc: "Increment stays within the reader's counter bound", Fn: c16IncrementCap},
 			{ID: "C16.R7", Min: 2, Desc: "Compare enumerates the entries of both operands", Fn: c16CompareEnumerates},
@@ -37,7 +39,7 @@ func init() {
 		ID: "C17",
 		Explanation: "Decided: (R1) every store into a view's member table stores a Clone() or a state freshly built by the decoder, Snapshot clones members and vector; (R2) nothing reachable from the merge removes a member or replaces the member table; (R3) each member store in AddMember / merge is on the edge 'absent ∨ incoming.IsNewerThan(existing)' with existing looked up under the same key and the roles not swapped; " +
 			"(R4) Epoch, Timestamp and ProtocolVersion are assigned from the other view only on the edge other.F > own.F; (R5) inside the merge the version vector is assigned only from Merge(own, other) or PruneWithMax; (R6) every member store inside the merge sets changed=true on the same path, and the vector assignment is preceded by an Equal test whose not-equal edge sets it; the result is a monotone chain. " +
-			"(R7) IsNewerThan treats a missing state as older and lets a differing generation decide alone, with the greater generation newer. (R3, addition) the converse: once the lookup found an entry, every path to the next iteration or a return either performs the store or takes the false edge of incoming.IsNewerThan(existing) — no further condition (clock skew, local status, strategy) keeps a newer incarnation out. NOT decided: commutativity / associativity / idempotence of the produced membership, consistency of the clock/timestamp tie-breakers of IsNewerThan, the interaction of pruning with 'changed'.",
+			"(R7) IsNewerThan treats a missing state as older and lets a differing generation decide alone, with the greater generation newer. (R3, addition) the converse: once the lookup found an entry, every path to the next iteration or a return either performs the store or takes the false edge of incoming.IsNewerThan(existing) — no further condition (clock skew, local status, strategy) keeps a newer incarnation out. (R11 = C16.R8) the vector equality that decides the vector part of the changed flag is exact: Equal is Compare == equal (or a direct implementation that checks both operands entry by entry), never a one-sided containment test, so a merge that only adds components is reported as a change. (R10 = C16.R5) the vector join the merge relies on is the pointwise maximum by the shape of its loops: no component is lowered and none is left below either operand's, whatever the sizes of the two vectors. NOT decided: commutativity / associativity / idempotence of the produced membership, consistency of the clock/timestamp tie-breakers of IsNewerThan, the interaction of pruning with 'changed'.",
 		Rules: []Rule{
 			{ID: "C17.R1", Min: 4, Desc: "stored member states are clones", Fn: c17Clones},
 			{ID: "C17.R2", Min: 1, Desc: "merge never removes", Fn: c17NeverRemoves},
@@ -46,19 +48,23 @@ func init() {
 			{ID: "C17.R5", Min: 2, Desc: "vector only joins / prunes", Fn: c17VectorAssign},
 			{ID: "C17.R6", Min: 3, Desc: "changed flag is sound", Fn: c17Changed},
 			{ID: "C17.R7", Min: 2, Desc: "incarnation order: generation decides first", Fn: c17Generation},
+			{ID: "C17.R10", Min: 3, Desc: "the version vector join never lowers a component (C16.R5)", Fn: c16PointwiseMax},
+			{ID: "C17.R11", Min: 1, Desc: "the equality the changed flag relies on is exact, not containment (C16.R8)", Fn: c16EqualExact},
 			{ID: "C17.R9", Min: 1, Desc: "vector compaction keeps the component of every member still in the table", Fn: c17PruneKeepsMembers},
 			{ID: "C17.R8", Min: 2, Desc: "vector order does not short-circuit the member comparison or the join", Fn: c17NoShortcut},
 		},
 	})
 	register(&Property{
 		ID: "C18",
-		Explanation: "Convergence, exact membership and stability quantify over fault sequences, delivery orders and timer phases of a distributed run; no static argument in reach bounds them and they are (R2, addition) the table the suppression predicate consults is written only with vectors that arrived in a message, never with the node's own vector after a send; (R6) in the join attempt every failure to ask a seed (time-outs included) is assigned to the error the attempt finally returns, so an attempt in which no seed answered is never reported as success and the retry timer is re-armed. NOT decided. One structural necessary condition is decided: (R1) the leader is a deterministic function of the membership view — the leader computation reaches no nondeterminism source (random numbers, clocks, package-level mutable state), reads only member address and status, sorts (or min-reduces) what it collects from the map before indexing it, and the publisher derives IAmLeader from that value only. " +
-			"(R2) the gossip suppression predicate answers 'send' whenever the peer's vector is unknown or the own vector is After / Concurrent with respect to it, and 'skip' only when it is Before or Equal (truth table of the predicate over its atoms). (R3) the generation bump of a re-joining node reads the previous incarnation from the seed's reply (directly, or from the own view after merging the reply). (R4) the leader publisher computes the leader on every call (only nil-context / nil-view / nil-stream edges return before it): views change without the version vector moving (a suspected member revived by gossip), so caching on the vector leaves two self-proclaimed leaders; (R5) the target selector ranges over the configured seed list itself on every path — never over a value that some path replaced by a constant: gossip to non-member seeds is the only way two disjoint islands find each other. Any other mutation in join, target selection or failure detection is NOT detected.",
+		Explanation: "Convergence, exact membership and stability quantify over fault sequences, delivery orders and timer phases of a distributed run; no static argument in reach bounds them and they are NOT decided. Structural necessary conditions are decided: (R1) the leader is a deterministic function of the membership view — the leader computation reaches no nondeterminism source (random numbers, clocks, package-level mutable state), reads only member address and status, sorts (or min-reduces) what it collects from the map before indexing it, and the publisher derives IAmLeader from that value only. " +
+			"(R2) the gossip suppression predicate answers 'send' whenever the peer's vector is unknown or the own vector is After / Concurrent with respect to it, and 'skip' only when it is Before or Equal (truth table of the predicate over its atoms). (R3) the generation bump of a re-joining node reads the previous incarnation from the seed's reply (directly, or from the own view after merging the reply). (R4) the leader publisher computes the leader on every call (only nil-context / nil-view / nil-stream edges return before it): views change without the version vector moving (a suspected member revived by gossip), so caching on the vector leaves two self-proclaimed leaders; (R5) the target selector ranges over the configured seed list itself on every path — never over a value that some path replaced by a constant: gossip to non-member seeds is the only way two disjoint islands find each other; and every function the module injects as the selector's seed source returns the result of a call made inside it (a method value of the provider), never a list captured when the node was built — with a resolver configured the seed set changes after start-up. (R2, addition) the table the suppression predicate consults is written only with vectors that arrived in a message, never with the node's own vector after a send; (R6) in the join attempt every failure to ask a seed (time-outs included) is assigned to the error the attempt finally returns, so an attempt in which no seed answered is never reported as success and the retry timer is re-armed; (R7 = C16.R8) the vector equality the suppression predicate relies on is exact, not containment: a peer whose vector is a strict subset of the own one is still sent to. (R8) the token buckets every gossip send and every join request pass through conserve elapsed time: no truncation lies between the subtraction that reads the refill instant and the stored token count, or else the refill instant advances from its previous value — a bucket that truncates and resets never refills when polled faster than one token period, and the node stops gossiping for good. Any other mutation in join, target selection or failure detection is NOT detected.",
 		Rules: []Rule{
 			{ID: "C18.R1", Min: 4, Desc: "leader is a deterministic function of the view", Fn: c18Leader},
 			{ID: "C18.R2", Min: 6, Desc: "gossip is suppressed only towards peers known to be at least as new", Fn: c18Suppression},
+			{ID: "C18.R7", Min: 1, Desc: "the equality the gossip suppression relies on is exact, not containment (C16.R8)", Fn: c16EqualExact},
+			{ID: "C18.R8", Min: 2, Desc: "the gossip/join token buckets conserve elapsed time (no truncated credit with a reset refill instant)", Fn: c18BucketConservesTime},
 			{ID: "C18.R4", Min: 1, Desc: "the leader is re-evaluated on every call of the publisher", Fn: c18AlwaysEvaluates},
-			{ID: "C18.R5", Min: 1, Desc: "configured seeds stay gossip candidates whatever the view holds", Fn: c18SeedsAlwaysCandidates},
+			{ID: "C18.R5", Min: 2, Desc: "configured seeds stay gossip candidates whatever the view holds", Fn: c18SeedsAlwaysCandidates},
 			{ID: "C18.R6", Min: 1, Desc: "a join attempt in which a seed could not be asked is reported as failed (so the retry timer is re-armed)", Fn: c18JoinReportsFailure},
 			{ID: "C18.R3", Min: 1, Desc: "restart generation decided against the merged reply", Fn: c18RestartGeneration},
 		},
@@ -373,6 +379,40 @@ func c16Wire(p *Program, r *Report) {
 	}
 	cw, cr := capOf(w), capOf(rd)
 	r.Check(cw > 0 && cw == cr, "writer and reader validate against the same entry cap", rd.Pos(), fmt.Sprintf("writer rejects more than %d entries, reader rejects more than %d", cw, cr))
+	// every node id the operations accept fits the length prefix it is written with: the validator the operations call bounds
+	// the id length by K (inclusive); a k-byte prefix carries at most 256^k - 1 bytes
+	maxID := int64(-1)
+	for _, fn := range p.Mod {
+		pk := fnPkg(fn)
+		if pk == nil || pk != fnPkg(w) || len(fn.Params) != 1 || fn.Signature.Results().Len() != 1 {
+			continue
+		}
+		if b, isB := fn.Params[0].Type().Underlying().(*types.Basic); !isB || b.Kind() != types.String {
+			continue
+		}
+		for _, ifi := range ifsOf(fn) {
+			f, ok := condFact(ifi.Cond, true)
+			if !ok || f.Op != token.GTR || f.Y != nil || f.IsNil {
+				continue
+			}
+			if c, isC := f.X.(*ssa.Call); isC {
+				if bi, isBi := c.Call.Value.(*ssa.Builtin); isBi && bi.Name() == "len" && c.Call.Args[0] == ssa.Value(fn.Params[0]) && f.C > maxID {
+					maxID = f.C
+				}
+			}
+		}
+	}
+	for _, sw := range p.shortLengthWrites() {
+		if sw.Fn != w {
+			continue
+		}
+		capacity := int64(1)<<(8*uint(sw.Bytes)) - 1
+		why := fmt.Sprintf("ids of up to %d bytes pass the validator, a %d-byte prefix carries %d", maxID, sw.Bytes, capacity)
+		if maxID < 0 {
+			why = fmt.Sprintf("no bound on the id length was found, a %d-byte prefix carries %d", sw.Bytes, capacity)
+		}
+		r.Check(maxID >= 0 && maxID <= capacity, fmt.Sprintf("node id length prefix (%d byte) carries every id the operations accept", sw.Bytes), sw.In.Pos(), why+": a vector the operations can produce must survive serialisation")
+	}
 }
 
 // c16IncrementCap: the only arithmetic on counters is Increment's +1. Its result must stay inside what the reader accepts:
@@ -1562,71 +1602,6 @@ func c18Suppression(p *Program, r *Report) {
 
 // ---- round-2 rules ---------------------------------------------------------------------------
 
-func c16MergeKeepsAll(p *Program, r *Report) {
-	vv := p.Named("internal/cluster", "VersionVector")
-	if vv == nil {
-		r.Unresolved("VersionVector")
-		return
-	}
-	fn := p.methodNamed(vv, "Merge")
-	if fn == nil || len(fn.Params) < 2 {
-		r.Unresolved("VersionVector.Merge")
-		return
-	}
-	g := p.ig(fn)
-	n := 0
-	for _, in := range g.Nodes {
-		lk, ok := in.(*ssa.Lookup)
-		if !ok || !lk.CommaOk {
-			continue
-		}
-		// lookup in the result map (a fresh map), with a key iterated from the other operand
-		if !anyContains(p.origins(lk.Index), "next<-range<-") {
-			continue
-		}
-		// the result map: the map this function also stores into (the operands' maps are never updated, C16.R1)
-		lf, lb := fieldLoad(lk.X)
-		isResult := false
-		for _, in2 := range g.Nodes {
-			if mu, isMU := in2.(*ssa.MapUpdate); isMU {
-				if mu.Map == lk.X {
-					isResult = true
-				}
-				if mf, mb := fieldLoad(mu.Map); lf != nil && mf == lf && strip(mb) == strip(lb) {
-					isResult = true
-				}
-			}
-		}
-		if !isResult {
-			continue
-		}
-		_, missing := g.okEdgesLookup(lk)
-		if len(missing) == 0 {
-			continue
-		}
-		n++
-		stores := nodesWhere(g, func(in2 ssa.Instruction) bool {
-			mu, isMU := in2.(*ssa.MapUpdate)
-			return isMU && sameValue(mu.Key, lk.Index)
-		})
-		li := g.Idx[lk]
-		ok2 := len(stores) > 0
-		for e := range missing {
-			if stores[e.to] {
-				continue
-			}
-			reach := g.Reach([]int{e.to}, stores, nil)
-			if reach[li] || anyIn(reach, g.Exits) {
-				ok2 = false
-			}
-		}
-		r.Check(ok2, "merge stores an entry the result lacks", lk.Pos(), "from the not-found edge of the lookup in the result every path stores that key before the next iteration or the return: the join never drops a node that only one operand has")
-	}
-	if n == 0 {
-		r.Unresolved("lookup of an iterated key in the result map of Merge")
-	}
-}
-
 func c16VerbatimKeys(p *Program, r *Report) {
 	rd := p.Func("internal/cluster", "ReadVersionVector")
 	if rd == nil {
@@ -1873,6 +1848,111 @@ func c18SeedsAlwaysCandidates(p *Program, r *Report) {
 		bad = fn.Pos()
 	}
 	r.Check(okAll, "seed loops range over the configured seed list", bad, fmt.Sprintf("all %d uses of the seed list in loops take the value returned by the seed source on every path (no path substitutes nil / another list)", n))
+	// an injected seed source (function-typed field): every function value the module puts there computes the list when it is
+	// called — its returned list is the result of a call made inside it (a method value of the provider does exactly that), not
+	// a value captured when the node was built. With a resolver configured the seed set is not start-up configuration; two
+	// islands whose start-up answers did not list each other never gossip to each other.
+	for _, sc := range src {
+		f, _ := fieldLoad(sc.Call.Value)
+		if f == nil {
+			continue
+		}
+		for _, getter := range p.funcValuesStoredTo(f) {
+			if getter.fn == nil {
+				r.Check(false, "seed source asks for the seeds on every call", getter.pos, "the value stored into the selector's seed source is not a function the module defines: what it returns on later calls is not decided")
+				continue
+			}
+			fresh := len(getter.fn.Blocks) > 0
+			for _, b := range getter.fn.Blocks {
+				ret, isRet := b.Instrs[len(b.Instrs)-1].(*ssa.Return)
+				if !isRet || len(ret.Results) == 0 {
+					continue
+				}
+				v := strip(ret.Results[0])
+				if ex, isEx := v.(*ssa.Extract); isEx {
+					v = ex.Tuple
+				}
+				c, isCall := v.(*ssa.Call)
+				if !isCall || c.Parent() != getter.fn {
+					fresh = false
+				}
+			}
+			r.Check(fresh, "seed source asks for the seeds on every call", getter.pos, fmt.Sprintf("every return of %s yields the result of a call made inside it: the seed list is asked for at selection time, not frozen when the node was built", fnName(getter.fn)))
+		}
+	}
+}
+
+type storedFunc struct {
+	fn  *ssa.Function
+	pos token.Pos
+}
+
+// funcValuesStoredTo: the function values the module stores into field f, followed through constructor parameters to the
+// arguments at the constructor's call sites (depth 2). fn == nil: a value that is not a function of the module.
+func (p *Program) funcValuesStoredTo(f *types.Var) []storedFunc {
+	var out []storedFunc
+	var resolve func(v ssa.Value, pos token.Pos, depth int)
+	resolve = func(v ssa.Value, pos token.Pos, depth int) {
+		switch x := v.(type) {
+		case *ssa.MakeClosure:
+			if fn, ok := x.Fn.(*ssa.Function); ok {
+				out = append(out, storedFunc{fn, pos})
+				return
+			}
+		case *ssa.Function:
+			out = append(out, storedFunc{x, pos})
+			return
+		case *ssa.ChangeType:
+			resolve(x.X, pos, depth)
+			return
+		case *ssa.Parameter:
+			if depth < 2 {
+				owner := x.Parent()
+				idx := -1
+				for i, q := range owner.Params {
+					if q == x {
+						idx = i
+					}
+				}
+				found := false
+				for _, fn := range p.Mod {
+					for _, b := range fn.Blocks {
+						for _, in := range b.Instrs {
+							c := callOf(in)
+							if c == nil || c.StaticCallee() != owner || idx < 0 {
+								continue
+							}
+							args := c.Args
+							if idx < len(args) {
+								found = true
+								resolve(args[idx], in.Pos(), depth+1)
+							}
+						}
+					}
+				}
+				if found {
+					return
+				}
+			}
+		}
+		out = append(out, storedFunc{nil, pos})
+	}
+	for _, fn := range p.Mod {
+		for _, b := range fn.Blocks {
+			for _, in := range b.Instrs {
+				st, ok := in.(*ssa.Store)
+				if !ok {
+					continue
+				}
+				fa, isFA := st.Addr.(*ssa.FieldAddr)
+				if !isFA || fieldOfAddr(fa) != f {
+					continue
+				}
+				resolve(st.Val, st.Pos(), 0)
+			}
+		}
+	}
+	return out
 }
 
 func isStringSlice(t types.Type) bool {
